@@ -556,3 +556,42 @@ Proof.
   split; [exact Ha|]. repeat split; try assumption.
   rewrite Vp, Vs. unfold pad_of. cbn [l_padding l2 l1 st_h]. destruct (l_padding l); lra.
 Qed.
+
+(* ---- cue splitting on arbitrary node lists: BREAK and STYLE nodes between (and around) the text nodes ----------- *)
+Definition text_layouts (nodes : list nnode) : list layout :=
+  flat_map (fun n => if n_kind n =? 1 then match n_layout n with Some l => [l] | None => [] end else []) nodes.
+
+Definition texts_have_layouts (nodes : list nnode) : Prop :=
+  forall n, In n nodes -> n_kind n = 1 -> exists l, n_layout n = Some l /\ layout_truthy l = true.
+
+Lemma vtt_groups_aux_general : forall nodes a, layout_truthy a = true -> texts_have_layouts nodes ->
+  vtt_groups_aux nodes true (Some a) = map Some (runs_last (a :: text_layouts nodes)).
+Proof.
+  induction nodes as [|n t IH]; intros a Ta H.
+  - reflexivity.
+  - assert (Ht : texts_have_layouts t) by (intros x Hx; apply H; right; exact Hx).
+    cbn [vtt_groups_aux]. unfold text_layouts. cbn [flat_map]. fold (text_layouts t).
+    destruct (n_kind n =? 1) eqn:K.
+    + destruct (H n (or_introl eq_refl) ltac:(lia)) as (b & Eb & Tb). rewrite Eb.
+      cbn [opt_layout_truthy opt_layout_eqb andb app]. rewrite Ta. cbn [andb].
+      rewrite (IH b Tb Ht).
+      change (runs_last (a :: b :: text_layouts t)) with (if layout_eqb b a then runs_last (b :: text_layouts t) else a :: runs_last (b :: text_layouts t)).
+      destruct (layout_eqb b a); reflexivity.
+    + cbn [app]. destruct (n_kind n =? 3); [apply IH; assumption|]. destruct (n_kind n =? 2); apply IH; assumption.
+Qed.
+
+(* a caption with at least one text node, every text node carrying a layout, any BREAK / STYLE nodes anywhere:
+   one cue per maximal run of equal text-node layouts *)
+Theorem vtt_split_by_layout_general : forall nodes, texts_have_layouts nodes -> text_layouts nodes <> [] ->
+  vtt_groups nodes = map Some (runs_last (text_layouts nodes)).
+Proof.
+  intros nodes. unfold vtt_groups. generalize false.
+  induction nodes as [|n t IH]; intros has H Hn; [contradiction|].
+  assert (Ht : texts_have_layouts t) by (intros x Hx; apply H; right; exact Hx).
+  cbn [vtt_groups_aux]. unfold text_layouts in *. cbn [flat_map] in *. fold (text_layouts t) in *.
+  destruct (n_kind n =? 1) eqn:K.
+  - destruct (H n (or_introl eq_refl) ltac:(lia)) as (b & Eb & Tb). rewrite Eb in *.
+    cbn [opt_layout_truthy andb app]. rewrite andb_false_r. cbn [andb].
+    apply vtt_groups_aux_general; assumption.
+  - cbn [app] in *. destruct (n_kind n =? 3); [apply IH; assumption|]. destruct (n_kind n =? 2); apply IH; assumption.
+Qed.
